@@ -137,6 +137,7 @@ static void scen_fault (void *arg)
 int main (int argc, char **argv)
 {	int f, c ; const char *sd ;
 	vh_init (argc, argv, "c16_no_leaks", "C16") ;
+	vh_case_secs = 30 ; vh_case_cpu_secs = 6 ;
 	vh_enum_formats () ;
 	sd = getenv ("VERIF_SCRATCH_DIR") ; snprintf (scratch, sizeof (scratch), "%s/c16_%d", sd ? sd : ".", (int) getpid ()) ; mkdir (scratch, 0700) ;
 	snprintf (tmpd, sizeof (tmpd), "%s", getenv ("TMPDIR") ? getenv ("TMPDIR") : "/tmp") ;
@@ -171,7 +172,7 @@ int main (int argc, char **argv)
 				}
 			/* C. mutated inputs: the structure-aware mutators shared with C03 (field values, chunk sizes, duplicated/deleted/appended chunks ...),
 			**    opened for read and for read/write, through virtual I/O and by path */
-			for (k = 0 ; s && k < (vh_thorough ? 1500 : 150) ; k++)
+			for (k = 0 ; s && k < (vh_thorough ? 6000 : 150) ; k++)
 			{	INPUT in ; MEMF mm ; CORP cb ; char desc [300] ;
 				if (!vh_case ("%s ch=%d mutated input %d", vh_fname (format), c, k)) continue ;
 				cb.d = rich.d ; cb.len = (long) rich.len ; cb.format = format ; cb.ch = c ; cb.meta = 2 ;
